@@ -390,6 +390,12 @@ def evaluate(ctx, res, schedules, runs, stats, tag):
         outs = coq.eval_shards(ctx.workdir, 'c14cases_%s' % tag, HEADER, shards,
                                ['bad_model cases', 'bad_old cases', 'reject_idx cases', 'spec_codes cases'], jobs=4)
         stats.t_coq += time.time() - t0
+        for path in glob.glob(os.path.join(ctx.workdir, 'c14cases_%s_*' % tag)) + glob.glob(
+                os.path.join(ctx.workdir, '.c14cases_%s_*' % tag)):
+            try:
+                os.remove(path)
+            except OSError:
+                pass
         for (rc, lists, err), span in zip(outs, spans):
             if rc != 0 or len(lists) != 4 or len(lists[2]) != len(span) or len(lists[3]) != len(span):
                 res['tie_failures'].append('coqc failed on a case shard: %s' % err[-600:])
